@@ -119,3 +119,65 @@ def rule_OFFS(ctx):
         res.fail(fw.q, 'index', fw.loc(), 'the four projection/hemisphere combinations do not get four distinct table entries: %s' % sorted(fmap.items()))
     res.analysed.update({'paths_with_projection': npaths})
     return res, npaths
+
+
+def rule_LON0(ctx, classes=('TransverseMercator', 'TransverseMercatorExact', 'LambertConformalConic', 'AlbersEqualArea')):
+    """the central meridian enters Forward only through AngDiff(lon0, lon) and Reverse only through the final
+    AngNormalize(<longitude difference> + lon0)."""
+    res = RuleResult('LON0', 'central meridian: in Forward(lon0, lat, lon, ..) every dependence on lon0 goes through '
+                             'Math::AngDiff(lon0, lon); in Reverse(lon0, x, y, ..) the returned longitude is '
+                             'AngNormalize(d + lon0) (or + AngNormalize(lon0)) with d independent of lon0 - signs and folds are '
+                             'applied to the difference, never to the sum')
+    nfn = 0
+    for cls in classes:
+        for f in sorted((g for g in ctx.prog.fns.values() if g.q in (NS + cls + '::Forward', NS + cls + '::Reverse') and
+                         g.d.get('body', -1) >= 0 and len(g.params) == 7), key=lambda g: (g.file, g.line)):
+            try:
+                paths = [p for p in SymEval(ctx.prog, inline=set(), max_paths=6000).explore(f) if p.outcome == 'return']
+            except Unsupported as e:
+                raise AnalysisBroken('LON0: %s not evaluated: %s' % (f.q, e))
+            nfn += 1
+            bad = None
+            nchk = 0
+            for p in paths:
+                outs = {pp['name']: p.env.get(('v', pp['d'])) for pp in f.params if pp['pk'] == 'r'}
+                deleg = [c for c in p.calls if c[0].endswith('::' + f.name) and c[1] and c[1][0].show() == 'lon0']
+                if deleg and all(isinstance(o, Poly) and o.show().startswith(deleg[-1][2] + '.out') for o in outs.values()):
+                    continue          # the whole call is delegated to another projection object with the same lon0
+                if f.name == 'Forward':
+                    for nm, v in outs.items():
+                        if not isinstance(v, Poly):
+                            continue
+                        t = v.show().replace('AngDiff(lon0, lon)', '')
+                        nchk += 1
+                        if 'lon0' in t:
+                            bad = bad or 'output %s depends on lon0 other than through AngDiff(lon0, lon): %s' % (nm, v.show()[:120])
+                else:
+                    v = outs.get('lon')
+                    if not isinstance(v, Poly):
+                        continue
+                    if 'lon0' not in v.show():
+                        if any('lon0' in (o.show() if isinstance(o, Poly) else '') for o in outs.values()):
+                            bad = bad or 'lon0 reaches an output other than lon'
+                        continue             # a delegated or NaN path
+                    nchk += 1
+                    call = [c for c in p.calls if c[2] == v.show() and c[0].endswith('Math::AngNormalize')]
+                    ok = False
+                    if call:
+                        arg = call[-1][1][0]
+                        for base in (Poly.sym('lon0'), Poly.sym('AngNormalize(lon0)')):
+                            d = arg - base
+                            if 'lon0' not in d.show():
+                                ok = True
+                    if not ok:
+                        bad = bad or 'the returned longitude is %s, not AngNormalize(d + lon0) with d independent of lon0' % v.show()[:140]
+                    for nm, o in outs.items():
+                        if nm != 'lon' and isinstance(o, Poly) and 'lon0' in o.show():
+                            bad = bad or 'output %s depends on lon0' % nm
+            if not nchk:
+                raise AnalysisBroken('LON0: %s: no path uses lon0' % f.q)
+            res.ob(bad is None, {'fn': f.q, 'paths': len(paths), 'checks': nchk})
+            if bad:
+                res.fail(f.q, 'lon0', f.loc(), '%s: %s' % (f.q, bad))
+    res.analysed['functions'] = nfn
+    return res, nfn
